@@ -37,6 +37,9 @@ RULES = {
     'C09.h': 'a refusal tells the client nothing it could not read: where a transport or handler takes a Response::VersionError apart, '
              'no text it builds in that arm takes the stored entry (`old_value`) or the refused change as an argument — a write needs only '
              '`w`, so the reply to a refused set-safe would hand the stored value to a user whose list has no `r`',
+    'C09.i': 'a guard that does not let the command through answers with an Error: the only Response a guard function builds itself is '
+             'Response::Error (its success is whatever the guarded closure returned) — the replication table decides from the kind of the '
+             'Response alone, so a refusal answered as Ok is replicated and executed on the other nodes as administrator',
 }
 
 ADMIN = {'CreateDb', 'Snapshot', 'CreateUser', 'SetPermissions', 'Join', 'Leave', 'SetPrimary', 'SetScoundary',
@@ -83,6 +86,7 @@ def run(ck, m):
     framing_rule(ck, m)
     permission_parser_rule(ck, m)
     refusal_reply_rule(ck, m)
+    guards_refuse_with_an_error(ck, m)
     # a grant `prefix*` / `*suffix` is matched by the same selector and matchers the key listing uses: their table is C01.c's, its
     # verdict is repeated here because a matcher that accepts more (a key shorter than the prefix) widens every grant
     from nl import report
@@ -801,3 +805,24 @@ def refusal_reply_rule(ck, m):
                   'need only `w`, so a user whose list grants no `r` on the key reads it by sending a set-safe with an old version'
                   % (sorted({x[0] for x in real}), sorted({x[1] for x in real})), real[0][1] if real else b.loc(tgt))
     ck.floor('C09.h', n, 3, 'places that take a Response::VersionError apart')
+
+
+
+def guards_refuse_with_an_error(ck, m):
+    """C09.i — see RULES"""
+    P = m.prog
+    G = m.guards()
+    n = 0
+    for gid in sorted(G):
+        gb = P.bodies.get(gid)
+        if gb is None:
+            continue
+        n += 1
+        others = sorted({(s['r'].get('variant'), gb.loc(bi)) for bi, bl in enumerate(gb.blocks) if not bl.get('cleanup') for s in bl['s']
+                         if s['k'] == 'assign' and s['r']['k'] == 'agg' and s['r'].get('adt', '').endswith('bo::Response') and s['r'].get('variant') != 'Error'})
+        ck.ob('C09.i', short(gid), 'guard-refuses-with-an-error', not others,
+              'the guard builds no Response other than Error' if not others else
+              'the guard %s builds a %s itself (%s): a request it does not let through is answered as a success — the replication table, which '
+              'looks at the kind of the Response only, hands the refused set / remove / increment to the other nodes, where it is executed on '
+              'an administrator link' % (short(gid), others[0][0], [x[1] for x in others]), others[0][1] if others else '')
+    ck.floor('C09.i', n, 5, 'guard functions')
